@@ -5011,7 +5011,10 @@ class TransformLinear(Array):
     @staticmethod
     def _transform_linear(chain, fromdims):
         if chain:
-            return functools.reduce(lambda r, i: i @ r, (item.linear for item in reversed(chain)))
+            linear = functools.reduce(lambda r, i: i @ r, (item.linear for item in reversed(chain)))
+            # A chain of a single item reduces to the item's own array; never
+            # hand out (a writable alias of) the data of the transform item.
+            return linear.copy() if len(chain) == 1 else linear
         else:
             return numpy.eye(fromdims)
 
